@@ -253,6 +253,9 @@ type Event struct {
 	Pos    token.Pos
 	Stack  string // names of inlined activations at the event
 	Note   string
+	// Bound: for closure arguments, the function values held at the time of the event by the variables the
+	// closure captures (names of closures' functions / symbols); only recorded when Interp.SnapClosures is set
+	Bound []string
 }
 
 func (e Event) Name() string {
@@ -418,6 +421,8 @@ type Interp struct {
 	OpaqueType func(t types.Type) bool
 	// NNField: struct fields that are never nil by construction (invariant of the analysed package)
 	NNField func(structType types.Type, field string) bool
+	// SnapClosures: record, at call events, what the captured variables of closure arguments hold (Event.Bound)
+	SnapClosures bool
 	// HavocKeep: symbolic locations an opaque call is assumed not to modify (frame condition)
 	HavocKeep func(key string) bool
 	MaxDepth   int // max inlining depth
@@ -1745,6 +1750,13 @@ func (in *Interp) finishUnknown(st *State, ctx *CallCtx, ev Event, rts []types.T
 	if in.OpaqueArgs != nil && ctx.Fn != nil && in.OpaqueArgs(ctx.Fn) {
 		in.markOpaque(st, ctx.Args)
 	}
+	if in.SnapClosures {
+		for _, a := range ev.Args {
+			if cl, ok := a.(Closure); ok {
+				ev.Bound = append(ev.Bound, boundFuncs(st, cl, 0)...)
+			}
+		}
+	}
 	tag := fmt.Sprintf("ret:%s#%d", ev.Name(), len(st.Events))
 	ret := symResults(rts, tag)
 	if len(ret) == 1 {
@@ -2012,4 +2024,27 @@ func (s *State) TraceStrings() []string {
 		xs = append(xs, e.String())
 	}
 	return xs
+}
+
+
+// boundFuncs: names of the function values reachable through the variables a closure captures.
+func boundFuncs(st *State, cl Closure, depth int) []string {
+	var out []string
+	if depth > 3 {
+		return out
+	}
+	for _, b := range cl.Bind {
+		v := b
+		if o := st.Obj(b); o != nil && o.Kind == 'c' {
+			v = o.Val
+		}
+		switch x := v.(type) {
+		case Closure:
+			out = append(out, x.Fn.Name())
+			out = append(out, boundFuncs(st, x, depth+1)...)
+		case Sym:
+			out = append(out, x.Name)
+		}
+	}
+	return out
 }
